@@ -63,9 +63,23 @@ def av_obligations(ctx, pid, shapes_list):
     return obls
 
 
+def lf_obligations(ctx):
+    raw = '"%s"' % os.path.join(ctx.repo, "src/rtosc.c")
+    obls = []
+    for e, fns in (("h_has_reserved", ["has_reserved"]), ("h_arg_size_fixed", ["arg_size"]), ("h_arg_size_var", ["arg_size"]),
+                   ("h_endian", ["emplace_uint32", "emplace_uint64", "extract_uint32", "extract_uint64"]), ("h_extract_arg", ["extract_arg"])):
+        obls.append(Obl("C01.lf.%s" % e[2:], "C01", "harness/C01/lf.c", entry=e, defines={"RTOSC_C": raw}, mode="proof",
+                        cbmc=["--unwind", "20", "--unwinding-assertions"], timeout=600, functions=fns, replayable=False,
+                        note="loop-free / constant-bound harness over the full value domain"))
+    for e in ("h_has_reserved", "h_arg_size_fixed", "h_extract_arg"):
+        obls.append(Obl("C01.canary.%s" % e[2:], "C01", "harness/C01/lf.c", entry=e, defines={"RTOSC_C": raw}, mode="proof",
+                        cbmc=["--unwind", "20"], timeout=600, canary=True))
+    return obls
+
+
 def obligations(ctx):
     sl = shapes.enumerate_shapes(ctx.tier, ctx.seed)
-    obls = shape_obligations(ctx, PID, PROPDEF, sl)
+    obls = lf_obligations(ctx) + shape_obligations(ctx, PID, PROPDEF, sl)
     avs = [s for s in sl if not s.symstr]
     if ctx.tier == "quick":
         avs = [s for i, s in enumerate(avs) if i % 3 == 0 or s.tags in ("Ti", "TsN", "hT", "sT", "Tb")]
